@@ -1,7 +1,279 @@
-//! Implementation-side evaluator for the `backoff` correspondence checks (see props/).
+//! Implementation-side evaluator for the `backoff` correspondence checks (props/C07.py):
+//! the real `BackoffIter`, `apply_jitter` and the `retries` deserializer through hook H3.
+//! Durations travel as decimal strings of nanoseconds.
+use camino::Utf8PathBuf;
+use nextest_filtering::{CompiledExpr, EvalContext, ParseContext};
+use nextest_metadata::{BuildPlatform, RustBinaryId};
+use nextest_runner::{
+    cargo_config::{CargoConfigs, EnvironmentMap},
+    config::{verif_retry_policy, NextestConfig, RetryPolicy, TestThreads},
+    double_spawn::DoubleSpawnInfo,
+    input::InputHandlerKind,
+    list::{RustBuildMeta, RustTestArtifact, TestExecuteContext, TestList},
+    platform::BuildPlatforms,
+    reporter::events::{ExecutionDescription, TestEventKind},
+    reuse_build::PathMapper,
+    runner::{verif_executor, TestRunnerBuilder},
+    signal::SignalHandlerKind,
+    target_runner::TargetRunner,
+    test_filter::{FilterBound, RunIgnored, TestFilterBuilder},
+};
 use serde_json::{json, Value};
+use std::{collections::BTreeSet, time::Duration};
+
+fn dur_of(v: &Value) -> Duration {
+    let ns: u128 = match v {
+        Value::String(s) => s.parse().expect("nanoseconds"),
+        other => other.as_u64().expect("nanoseconds") as u128,
+    };
+    Duration::new((ns / 1_000_000_000) as u64, (ns % 1_000_000_000) as u32)
+}
+
+fn ns(d: Duration) -> Value {
+    json!(d.as_nanos().to_string())
+}
+
+fn policy_of(case: &Value) -> RetryPolicy {
+    let count = case["count"].as_u64().expect("count") as usize;
+    let delay = dur_of(&case["delay"]);
+    let jitter = case["jitter"].as_bool().unwrap_or(false);
+    match case["kind"].as_str().expect("kind") {
+        "fixed" => RetryPolicy::Fixed {
+            count,
+            delay,
+            jitter,
+        },
+        "exp" => RetryPolicy::Exponential {
+            count,
+            delay,
+            jitter,
+            max_delay: if case["max_delay"].is_null() {
+                None
+            } else {
+                Some(dur_of(&case["max_delay"]))
+            },
+        },
+        other => panic!("unknown policy kind {other}"),
+    }
+}
+
+fn policy_json(p: RetryPolicy) -> Value {
+    match p {
+        RetryPolicy::Fixed {
+            count,
+            delay,
+            jitter,
+        } => json!(["fixed", count, ns(delay), jitter, Value::Null]),
+        RetryPolicy::Exponential {
+            count,
+            delay,
+            jitter,
+            max_delay,
+        } => json!(["exp", count, ns(delay), jitter, max_delay.map(ns)]),
+    }
+}
+
+/// Runs the real `TestRunner` (public API, direct spawn, no-op signal and input handlers) over
+/// scripted test binaries prepared by the check in `case["dir"]`:
+/// `dir/.config/nextest.toml`, and per binary `dir/<bin>` (an executable script that lists
+/// `dir/<bin>.list` and, to run test `t` on attempt `k`, executes `dir/<bin>.<t>.<k>` or
+/// `dir/<bin>.<t>.default`). Reports, per test, every attempt as nextest reported it.
+fn run_scenario(case: &Value) -> Value {
+    let dir = Utf8PathBuf::from(case["dir"].as_str().expect("dir"));
+    let graph = crate::common::graph();
+    let pcx = ParseContext::new(graph);
+    let config = match NextestConfig::from_sources(
+        dir.clone(),
+        &pcx,
+        None,
+        [],
+        &BTreeSet::new(),
+    ) {
+        Ok(c) => c,
+        Err(e) => return json!({ "error": format!("config: {e:?}") }),
+    };
+    let build_platforms = BuildPlatforms::new_with_no_target().expect("host platform");
+    let profile = config
+        .profile("default")
+        .expect("default profile")
+        .apply_build_platforms(&build_platforms);
+    let package = graph
+        .metadata(&crate::common::package_id("a"))
+        .expect("package in fixture graph");
+    let bins = crate::common::strs(&case["bins"]);
+    let artifacts: Vec<RustTestArtifact<'_>> = bins
+        .iter()
+        .map(|b| RustTestArtifact {
+            binary_id: RustBinaryId::new(b),
+            package,
+            binary_path: dir.join(b),
+            binary_name: b.clone(),
+            kind: crate::common::kind_of("lib"),
+            non_test_binaries: BTreeSet::new(),
+            cwd: dir.clone(),
+            build_platform: BuildPlatform::Target,
+        })
+        .collect();
+    let rust_build_meta =
+        RustBuildMeta::new(dir.join("target"), build_platforms).map_paths(&PathMapper::noop());
+    let double_spawn = DoubleSpawnInfo::disabled();
+    let target_runner = TargetRunner::empty();
+    let ctx = TestExecuteContext {
+        profile_name: "default",
+        double_spawn: &double_spawn,
+        target_runner: &target_runner,
+    };
+    let all = CompiledExpr::ALL;
+    let ecx = EvalContext {
+        default_filter: &all,
+    };
+    let cargo_configs =
+        CargoConfigs::new_with_isolation(Vec::<String>::new(), &dir, &dir, Vec::new())
+            .expect("cargo configs");
+    let env = EnvironmentMap::new(&cargo_configs);
+    let filter = TestFilterBuilder::default_set(RunIgnored::Default);
+    let test_list = match TestList::new(
+        &ctx,
+        artifacts,
+        rust_build_meta,
+        &filter,
+        dir.clone(),
+        env,
+        &ecx,
+        FilterBound::All,
+        2,
+    ) {
+        Ok(l) => l,
+        Err(e) => return json!({ "error": format!("list: {e:?}") }),
+    };
+    // binaries that must fail to start: made non-executable after listing
+    for b in crate::common::strs(&case["chmod_after_list"]) {
+        use std::os::unix::fs::PermissionsExt;
+        std::fs::set_permissions(dir.join(&b), std::fs::Permissions::from_mode(0o644))
+            .expect("chmod");
+    }
+    let mut builder = TestRunnerBuilder::default();
+    builder.set_test_threads(TestThreads::Count(
+        case["threads"].as_u64().unwrap_or(4) as usize
+    ));
+    if !case["force_retries"].is_null() {
+        builder.set_retries(policy_of(&case["force_retries"]));
+    }
+    let runner = builder
+        .build(
+            &test_list,
+            &profile,
+            Vec::new(),
+            SignalHandlerKind::Noop,
+            InputHandlerKind::Noop,
+            DoubleSpawnInfo::disabled(),
+            TargetRunner::empty(),
+        )
+        .expect("runner");
+    let mut events: Vec<Value> = Vec::new();
+    let res = runner.execute(|event| match event.kind {
+        TestEventKind::TestAttemptFailedWillRetry {
+            test_instance,
+            run_status,
+            delay_before_next_attempt,
+            ..
+        } => events.push(json!({
+            "ev": "will_retry", "bin": test_instance.suite_info.binary_id.as_str(),
+            "test": test_instance.name, "attempt": run_status.retry_data.attempt,
+            "total": run_status.retry_data.total_attempts,
+            "result": crate::classify::enc(run_status.result),
+            "delay": ns(delay_before_next_attempt),
+        })),
+        TestEventKind::TestRetryStarted {
+            test_instance,
+            retry_data,
+        } => events.push(json!({
+            "ev": "retry_started", "bin": test_instance.suite_info.binary_id.as_str(),
+            "test": test_instance.name, "attempt": retry_data.attempt,
+            "total": retry_data.total_attempts,
+        })),
+        TestEventKind::TestFinished {
+            test_instance,
+            run_statuses,
+            ..
+        } => {
+            let kind = match run_statuses.describe() {
+                ExecutionDescription::Success { .. } => 0,
+                ExecutionDescription::Flaky { .. } => 1,
+                ExecutionDescription::Failure { .. } => 2,
+            };
+            let attempts: Vec<Value> = run_statuses
+                .iter()
+                .map(|s| {
+                    json!({
+                        "attempt": s.retry_data.attempt, "total": s.retry_data.total_attempts,
+                        "result": crate::classify::enc(s.result),
+                        "delay_before_start": ns(s.delay_before_start),
+                        "time_taken_ms": s.time_taken.as_millis() as u64,
+                        "is_slow": s.is_slow,
+                    })
+                })
+                .collect();
+            events.push(json!({
+                "ev": "finished", "bin": test_instance.suite_info.binary_id.as_str(),
+                "test": test_instance.name, "describe": kind, "attempts": attempts,
+                "last_result": crate::classify::enc(run_statuses.last_status().result),
+            }))
+        }
+        _ => {}
+    });
+    match res {
+        Ok(stats) => json!({ "events": events, "finished_count": stats.finished_count,
+                             "passed": stats.passed, "flaky": stats.flaky, "failed": stats.failed,
+                             "exec_failed": stats.exec_failed, "timed_out": stats.timed_out,
+                             "leaky": stats.leaky }),
+        Err(e) => json!({ "error": format!("execute: {e:?}"), "events": events }),
+    }
+}
 
 pub fn run(case: &Value) -> Value {
-    let _ = case;
-    json!({ "error": "not implemented" })
+    match case["op"].as_str().unwrap_or("") {
+        "run" => run_scenario(case),
+        // BackoffIter::new(policy) followed by `take` calls of next(); null = None
+        "delays" => {
+            let take = case["take"].as_u64().expect("take") as usize;
+            let v: Vec<Value> = verif_executor::backoff_delays(policy_of(case), take)
+                .into_iter()
+                .map(|d| d.map(ns).unwrap_or(Value::Null))
+                .collect();
+            json!({ "count": policy_of(case).count(), "delays": v })
+        }
+        // next_delay_and_jitter `take` times: [[ns, jitter_flag], ...]
+        "base" => {
+            let take = case["take"].as_u64().expect("take") as usize;
+            let v: Vec<Value> = verif_executor::backoff_base_delays(policy_of(case), take)
+                .into_iter()
+                .map(|(d, j)| json!([ns(d), j]))
+                .collect();
+            json!(v)
+        }
+        // apply_jitter(d) n times
+        "jitter" => {
+            let n = case["n"].as_u64().expect("n") as usize;
+            let v: Vec<Value> = verif_executor::jitter_draws(dur_of(&case["delay"]), n)
+                .into_iter()
+                .map(ns)
+                .collect();
+            json!(v)
+        }
+        // deserialize_retry_policy (with validation) on `retries = ...`
+        "parse" => {
+            match verif_retry_policy::parse_retries_toml(case["toml"].as_str().expect("toml")) {
+                Ok(Some(p)) => json!({ "ok": policy_json(p) }),
+                Ok(None) => json!({ "ok": Value::Null }),
+                Err(e) => json!({ "err": e }),
+            }
+        }
+        // what `--retries N` / NEXTEST_RETRIES builds (cargo-nextest: new_without_delay)
+        "cli" => {
+            let n = case["count"].as_u64().expect("count") as usize;
+            json!({ "ok": policy_json(RetryPolicy::new_without_delay(n)) })
+        }
+        other => json!({ "error": format!("unknown op {other}") }),
+    }
 }
